@@ -32,7 +32,8 @@ class Profile:
         self.allow_mode_conflict = False
         self.empty_stub_chance = (0, 1)
         self.user_panic_answers = False
-        self.lifecycle = False                  # interleave clone/drop/verify/noverify events
+        self.lifecycle = False
+        self.park_weight = 0                    # answers that lend out a clone of the mock via make_ref                  # interleave clone/drop/verify/noverify events
         for k, v in kw.items():
             if not hasattr(self, k):
                 raise KeyError(k)
@@ -47,7 +48,7 @@ def gen_chain(rng, prof, kind, serial, mode_ordered):
         if r == 'ret':
             resp = f"ret{serial * 10 + j}"
         elif r == 'ans':
-            flav = rng.weighted([(0, 6), (8, 2 if prof.nested_args else 0), (9, 1 if prof.user_panic_answers else 0)])
+            flav = rng.weighted([(0, 6), (7, prof.park_weight), (8, 2 if prof.nested_args else 0), (9, 1 if prof.user_panic_answers else 0)])
             resp = f"ans{serial * 100 + j * 10 + flav}"
         elif r == 'pan':
             resp = f"pan{serial * 10 + j}"
